@@ -8,6 +8,11 @@ NOT_APPLICABLE = {
     'C03': 'C++ exception capture/transport/rethrow: CBMC\'s usable front end here is C, extraction drops try/catch, so no contract can mention the behaviour (DESIGN.md §6)',
 }
 CLAIMS = {
+    'C18': {
+        'technique': 'CBMC loop-free harnesses on the tbbmalloc entry points sliced from frontend.cpp with allocation callees as may-fail stubs; scalable_calloc\'s multiply/divide overflow test proved for size_t bound to 8- and 16-bit types (labelled bounded) plus multiplier-free 64-bit facts',
+        'text': 'scalable_posix_memalign / aligned_malloc / aligned_realloc / realloc: illegal alignment or size gives EINVAL/NULL without touching *memptr or allocating; a failing callee gives ENOMEM/NULL, nothing freed; size-0 and NULL-pointer cases as documented, for all argument values. scalable_calloc: NULL/ENOMEM iff nobj*size overflows, exact request otherwise, zero-fill over exactly the request - bounded: 8/16-bit size_t; at 64 bits only the control-flow facts that need no multiplier.',
+        'note': 'Trusted: callee stubs (reallocAligned is proved under C17). Not decided: 64-bit exact overflow test, k-th OS allocation failure inside refill paths, memory pools (raw-region accounting, pool_identify), getFromLLOCache wrap guard.',
+    },
     'C15': {
         'technique': 'rely/guarantee over lock-protected sections (each scoped_lock section of limiter_node is one atomic step between arbitrary interference preserving a ghost accounting invariant) + loop-free contracts on sequencer_node::internal_push and the item_buffer methods it uses, all sliced from flow_graph.h',
         'text': 'limiter_node: for any number of threads putting, forwarding and decrementing, the counters account exactly for delivered-minus-decremented messages and that number never exceeds the threshold; every registered try is settled. sequencer_node: a tag below head or an occupied tag is rejected, an accepted item sits at its own tag inside [head,tail) and no other parked item changes (F5: tag SIZE_MAX is a KNOWN-FINDING).',
